@@ -4,6 +4,7 @@ import (
 	"encoding/hex"
 	"encoding/json"
 	"fmt"
+	"math"
 	"sort"
 	"strings"
 	"time"
@@ -65,6 +66,19 @@ func (j *c12Job) wellFormed() bool {
 	return true
 }
 
+// c12DurMs: span durations, distinct within and across the two traces (latency percentiles of the RED view)
+func c12DurMs(trace, i int) uint64 { return uint64(trace-1)*60 + uint64(i+1)*10 }
+
+// c12Percentile is the plain definition used by the RED view: linear interpolation between the order statistics at
+// p·(n−1)/100.
+func c12Percentile(ds []float64, p int) float64 {
+	s := append([]float64{}, ds...)
+	sort.Float64s(s)
+	k := float64(p*(len(s)-1)) / 100
+	lo, hi := int(math.Floor(k)), int(math.Ceil(k))
+	return s[lo] + (s[hi]-s[lo])*(k-float64(lo))
+}
+
 func c12Run(w *kernel.Worker, j *c12Job, rep *kernel.Report) (*Fail, error) {
 	die := func(stage string, err error) (*Fail, error) {
 		d, ok := err.(*kernel.Died)
@@ -114,7 +128,7 @@ func c12Run(w *kernel.Worker, j *c12Job, rep *kernel.Report) (*Fail, error) {
 			st = &tracepb.Status{Code: tracepb.Status_STATUS_CODE_ERROR}
 		}
 		return &tracepb.Span{TraceId: c12TraceID(trace), SpanId: c12SpanID(trace, i), ParentSpanId: parent, Name: name, Kind: tracepb.Span_SPAN_KIND_SERVER,
-			StartTimeUnixNano: base + uint64(i)*1_000_000, EndTimeUnixNano: base + uint64(i)*1_000_000 + 500_000, Status: st}
+			StartTimeUnixNano: base + uint64(i)*1_000_000, EndTimeUnixNano: base + uint64(i)*1_000_000 + c12DurMs(trace, i)*1_000_000, Status: st}
 	}
 	type rs struct {
 		svc  string
@@ -355,6 +369,63 @@ func c12Run(w *kernel.Worker, j *c12Job, rep *kernel.Report) (*Fail, error) {
 	} else if wf {
 		fs.Add("C12/depgraph-failed/well-formed", ctx+fmt.Sprintf(": http %d %s", r.Status, trunc(r.Body, 200)))
 	}
+	// ---- view 4: RED metrics (one pass of the periodic computation over the spans of the last five minutes) ----
+	if wf {
+		if err := w.CallT("redtraces", nil, nil, 90*time.Second); err != nil {
+			return die("red-metrics", err)
+		}
+		rr, err := runQuery(w, Q{Index: "red-traces", Text: "*", Start: now.Add(-10 * time.Minute).UnixMilli(), End: now.Add(10 * time.Minute).UnixMilli(), Size: 100})
+		if err != nil {
+			return die("red-metrics", err)
+		}
+		rep.Eval(1)
+		// entry span: no parent, or the parent (of the same trace) belongs to another service
+		wantEntry, wantErr := map[string]int{"svcC": 1, "svcD": 1}, map[string]int{}
+		wantDur := map[string][]float64{"svcC": {float64(c12DurMs(2, 0))}, "svcD": {float64(c12DurMs(2, 1))}}
+		for i, p := range j.Parents {
+			if p == -1 || svcOf(p) != svcOf(i) {
+				wantEntry[svcOf(i)]++
+				wantDur[svcOf(i)] = append(wantDur[svcOf(i)], float64(c12DurMs(1, i)))
+				if errOf(i) {
+					wantErr[svcOf(i)]++
+				}
+			}
+		}
+		gotRate, gotErrRate := map[string]float64{}, map[string]float64{}
+		gotPct := map[string]map[int]float64{}
+		for _, rec := range rr.Records {
+			svc := fmt.Sprint(rec["service"])
+			if rec["service"] == nil {
+				svc = ""
+			}
+			gotRate[svc], _ = ObsFloat(rec["rate"])
+			gotErrRate[svc], _ = ObsFloat(rec["error_rate"])
+			gotPct[svc] = map[int]float64{}
+			for _, pc := range []int{50, 90, 95, 99} {
+				gotPct[svc][pc], _ = ObsFloat(rec[fmt.Sprintf("p%d", pc)])
+			}
+		}
+		for svc, n := range wantEntry {
+			if !approxEq(gotRate[svc]*60, float64(n)) {
+				fs.Add("C12/red-metrics/rate", ctx+fmt.Sprintf(": service %q has %d entry spans (no parent, or parent in another service) in the last five minutes, RED rate*60 = %v (records %s)", svc, n, gotRate[svc]*60, jstr(rr.Records)))
+			} else if !approxEq(gotErrRate[svc], 100*float64(wantErr[svc])/float64(n)) {
+				fs.Add("C12/red-metrics/error-rate", ctx+fmt.Sprintf(": service %q: %d of %d entry spans failed, RED error_rate = %v", svc, wantErr[svc], n, gotErrRate[svc]))
+			} else {
+				for _, pc := range []int{50, 90, 95, 99} {
+					if want := c12Percentile(wantDur[svc], pc); !approxEq(gotPct[svc][pc], want) {
+						fs.Add("C12/red-metrics/latency-percentile", ctx+fmt.Sprintf(": service %q: entry-span durations %v ms, p%d = %v, RED p%d = %v", svc, wantDur[svc], pc, want, pc, gotPct[svc][pc]))
+						break
+					}
+				}
+			}
+			rep.Add("red_metric_rows_compared", 1)
+		}
+		for svc := range gotRate {
+			if _, ok := wantEntry[svc]; !ok {
+				fs.Add("C12/red-metrics/unknown-service", ctx+fmt.Sprintf(": RED metrics list service %q which has no entry span", svc))
+			}
+		}
+	}
 	return fs.Result(), nil
 }
 
@@ -367,9 +438,9 @@ func C12() int {
 	rep.Rule = fmt.Sprintf("every parent function on %d spans of one trace (each span: root, child of any span incl. itself, or child of a span id that does not exist: %d forests — trees, chains, several roots, "+
 		"orphans, 2- and 3-cycles, self-parents) × service patterns {one service, alternating, root vs rest} × status patterns {all OK, one ERROR, all ERROR} × ingest order {ascending, descending} × "+
 		"{one request, flush in between}; a second well-formed trace re-using the same span ids is ingested alongside. On a freshly booted server the trace search, the span tree of each trace and the "+
-		"generated dependency graph are compared with the model; malformed forests must yield an error or a partial view without hang, crash or foreign spans. non-trivial = forest with ≥2 services or a malformed link", n, pow(n+2, n))
+		"generated dependency graph are compared with the model, and for well-formed forests one pass of the RED computation (rate, error percentage, p50/p90/p95/p99 of each service's entry spans); malformed forests must yield an error or a partial view without hang, crash or foreign spans. non-trivial = forest with ≥2 services or a malformed link", n, pow(n+2, n))
 	rep.Assume = []string{"span times are 'now − 3 s' so that both the ingest-time based search window and the trace's own start/end fall inside the queried window",
-		"RED metrics (computed by a background loop over the last five minutes) are not covered; result pages: N one-span traces for N around the page size (50), all pages walked, every trace on exactly one page"}
+		"RED metrics: the periodic pass is invoked once (ProcessRedTracesIngest), its timer is not; result pages: N one-span traces for N around the page size (50), all pages walked, every trace on exactly one page"}
 	pool := serverPool()
 	pool.RecycleEvery = 1
 	d := &Driver[c12Job]{Rep: rep, Pool: pool,
